@@ -1297,7 +1297,7 @@ def specific_mutators(e, rng):
         add("di.entry_tags", lambda x: x["XR"].tags.append(DXFTag(1, "more")))
         add("di.entry_attr", lambda x: setattr(x["XR"].dxf, "cloning", 0))
         add("di.discard", lambda x: x.discard(next(iter(x.keys()))))
-        add("di.setitem", lambda x: x.__setitem__("K2", x.doc.layers.get("0")))
+        add("di.setitem", lambda x: x.__setitem__("K2", x.doc.objects.add_xrecord(owner=x.dxf.handle or "0")))
         add("di.clear", lambda x: x._data.clear())
         add("di.dictvar", lambda x: setattr(x["DV"].dxf, "value", "changed"))
     if t == "XRecord":
@@ -1610,17 +1610,26 @@ def entity_nodes(g: Graph, root: int, frozen=()):
 
 
 RULE = (
-    "correspondence X1: for one fully populated instance of every copyable registered entity class the real object "
-    "graph of (source, source.copy()) is sent to the Lean heap model with its atoms; seeded random raw write sequences "
-    "(set/append/remove a slot, fresh object, re-link inside the own graph, navigation reference) are applied by "
-    "`applyAll` in Lean and by the corresponding Python object operations (setattr / list / dict) on the real objects; "
-    "compared: the value tree `observe` of source and copy to depth 6 against the Python fingerprint of the real objects. "
-    "non-trivial = the write sequence changed the observation of the written root; distinct by hash of the request. "
-    "oracle: mutate-then-compare sweep on the real code: every copyable class x copy route (copy, copy_to_layout, "
-    "duplicate_entity) x every mutator (each DXF attribute set/discard, XDATA, app data, reactors, extension dictionary "
-    "entries, payload API of each class, transform, raw mutation of every mutable object of the graph) x both directions; "
-    "content equality source/copy minus the documented resets; handles; producing copies / virtual entities / primitives "
-    "leaves the whole document fingerprint unchanged; two documents under interleaved operations; successive new()."
+    "correspondence X1 (heap model vs Python objects): for a seeded populated instance of every copyable registered entity "
+    "class the real object graph of (source, source.copy()) is sent to the Lean heap model with its atoms; seeded raw write "
+    "sequences (set/append/remove a slot, fresh object, re-link inside the own graph, navigation reference, ill-formed writes) "
+    "are applied by `applyAll` in Lean and by the corresponding Python object operations (setattr / list / dict) on the real "
+    "objects; compared: the value tree `observe` of source and copy to depth 6 against the traversal of the real objects. "
+    "non-trivial = the write sequence changed the observation of the written root. "
+    "correspondence X2 (copy model vs CopyStrategy.copy): the value tree of a populated source entity (class ids, header, "
+    "payload parts), the copy_data recipe parsed from the current source text of the copy_data methods and the parts of a "
+    "default constructed instance are sent to the Lean `copyT`; compared: the rendering of the model result (new object / "
+    "the very object of the source s<addr> / value) against the rendering of the real copy relative to the identities "
+    "(id()) of the source objects; non-trivial = the class has a payload part with an explicit copy_data policy or the instance "
+    "carries XDATA / app data / an extension dictionary; classes outside the "
+    "modelled subset (copy() overridden, property setters, cyclic values) are listed in the notes. distinct by hash of the request. "
+    "oracle: mutate-then-compare sweep on the real code: every copyable class x instance variants x copy route (copy, "
+    "copy_to_layout, duplicate_entity) x every mutator (each DXF attribute set/discard, XDATA, app data, reactors, extension "
+    "dictionary entries, payload API of each class, transform, raw mutation of every mutable object of the graph) x both "
+    "directions; virtual entities of INSERT/POLYLINE/DIMENSION/LEADER/MLINE/MULTILEADER/POINT mutated the same way; content "
+    "equality source/copy minus the documented resets; handles; producing copies / virtual entities / primitives leaves the "
+    "whole document fingerprint unchanged; two documents under interleaved operation histories compared with solo runs (and "
+    "per step); successive new(); module and class level state of the package before/after."
 )
 TRUSTED_BASE = [
     "the object graph extractor (T-heap, harness/props/c16.py): it sees __dict__, __slots__ and builtin containers; memory shared "
@@ -1794,7 +1803,7 @@ def sweep_one(ctx, name):
                     run_mut(r.choice(spec)[1], e)
         return e
 
-    for v in range(ctx.n(2, 6)):
+    for v in range(ctx.n(2, 8)):
         rng = ctx.rng(f"sweep/{name}/{v}")
         proto = make(v)
         cls = type(proto).__name__
@@ -2206,7 +2215,7 @@ def documents_oracle(ctx, part=0, parts=1):
             d.saveas(p)
             seed_file[(v, s)] = p
             specs.append((v, s, "readfile"))
-        n_hist = ctx.n(100, 1000) // parts
+        n_hist = ctx.n(100, 2000) // parts
         for case in range(n_hist):
             sa, sb = rng.choice(specs), rng.choice(specs)
             la, lb = rng.randint(1, ctx.n(8, 30)), rng.randint(1, ctx.n(8, 30))
@@ -2552,7 +2561,7 @@ def _corr_worker(args):
     import random
     cases = []
     names = list(B(new_doc()))
-    reps = 24 if quick else 120
+    reps = 24 if quick else 200
     for k, name in enumerate(names):
         if k % parts != part:
             continue
@@ -3007,7 +3016,7 @@ def _copy_corr_worker(args):
     doc = new_doc()
     b = B(doc)
     cases, skipped = [], {}
-    reps = 24 if quick else 120
+    reps = 24 if quick else 200
     for k, name in enumerate(b):
         if k % parts != part:
             continue
@@ -3016,8 +3025,10 @@ def _copy_corr_worker(args):
             e = b[name]()
             if rng.random() < 0.8:
                 decorate(e, doc, xdict=rng.random() < 0.6)
-            if rng.random() < 0.3:
-                run_mut(rng.choice(specific_mutators(e, rng) or [("", lambda x: None)])[1], e)
+            if rng.random() < 0.6:  # other payload shapes
+                spec = specific_mutators(e, rng) or [("", lambda x: None)]
+                for _ in range(rng.randint(1, 3)):
+                    run_mut(rng.choice(spec)[1], e)
             tv = TreeView()
             tv.nav(doc)
             try:
@@ -3030,7 +3041,8 @@ def _copy_corr_worker(args):
                 break
             except ezdxf.DXFError:
                 break
-            cases.append((req, out, any(t.startswith("s") for t in out.split())))
+            explicit = any(p != "init" for p in variant_of(e)[2])
+            cases.append((req, out, explicit or e.xdata is not None or e.appdata is not None or e.extension_dict is not None))
     return cases, skipped
 
 
